@@ -41,7 +41,7 @@ let corrupt r (v : byte list) : byte list =
   for _ = 1 to rrange r 1 8 do
     let n = Array.length !a in
     if n > 0 then
-      match rint r 7 with
+      match rint r 8 with
       | 0 -> let i = rint r n in !a.(i) <- !a.(i) lxor (1 lsl rint r 8)                       (* bit flip *)
       | 1 -> !a.(rint r n) <- pick r [| 0; 1; 2; 0x12; 0x7f; 0x80; 0xff |]                     (* byte set *)
       | 2 -> a := Array.sub !a 0 (rint r (n + 1))                                             (* truncate *)
@@ -49,7 +49,21 @@ let corrupt r (v : byte list) : byte list =
       | 4 -> let i = rint r n and l = rint r 32 in                                            (* splice *)
         a := Array.concat [ Array.sub !a 0 i; Array.init l (fun _ -> rbyte r); Array.sub !a i (n - i) ]
       | 5 -> let off = rint r n in set_le !a off 4 (pick r boundary32)                        (* length/count/offset field *)
-      | _ -> let off = rint r n in set_le !a off 2 (pick r boundary32)
+      | 6 -> let off = rint r n in set_le !a off 2 (pick r boundary32)
+      | _ ->
+        (* page-shaped input: rewrite one of the first line pointers with a length / offset next to a small guard (tuple
+           header 23/24, item header 8, special 8176..8192) keeping the other two fields (seeded change C10-4: lp_len 23) *)
+        if n >= 28 + 4 * 8 then begin
+          let i = rint r 8 in
+          let base = 24 + 4 * i in
+          let w = !a.(base) lor (!a.(base + 1) lsl 8) lor (!a.(base + 2) lsl 16) lor (!a.(base + 3) lsl 24) in
+          let off = w land 0x7fff and fl = (w lsr 15) land 3 and len = (w lsr 17) land 0x7fff in
+          let off, fl, len = match rint r 3 with
+            | 0 -> (off, fl, pick r [| 0; 1; 7; 8; 22; 23; 24; 25; 26; 27; 28; 31; 32; 40 |])
+            | 1 -> (pick r [| 0; 1; 23; 24; 28; 8168; 8169; 8176; 8184; 8191; 8192 - len; 8193 - len |] land 0x7fff, fl, len)
+            | _ -> (off, pick r [| 0; 1; 2; 3 |], len) in
+          set_le !a base 4 (off lor (fl lsl 15) lor (len lsl 17))
+        end
   done;
   Array.to_list (Array.map byte_of_int !a)
 
@@ -223,7 +237,8 @@ let sweep_case r k =
   | Some arr ->
     let (h, p, origin) = arr.((k / Array.length entries) mod Array.length arr) in
     if String.length h <= 2 * 20000 then begin
-      let mode = if (k / Array.length entries) mod 2 = 0 then "prefix" else "flip" in
+      let mode = match (k / Array.length entries) mod 3 with
+        | 0 -> "prefix" | 1 -> "flip" | _ -> if String.length h >= 2 * 8192 then "lp" else "prefix" in
       emit ~fn:"NoPanicSweep" ~tag:(e ^ ".sweep_" ^ mode ^ "." ^ origin) ~s:"ok" ~m:"ok" [ e; h; string_of_int p; mode ]
     end
 
@@ -241,6 +256,20 @@ let jsonb_bomb r depth fan : byte list =
           else [ le32 (0x80000000 lor 0x40000000 lor (pick r [| 0; 0; 1; l - 1 |] land 0x0fffffff)); le32 (0x50000000 lor l) ])) in
       le32 (0x40000000 lor (List.length ents)) @ List.concat ents @ c end in
   level depth
+(* hostile array headers: ndim 0..7 and dimension words from the boundary set, so that the element count (product of the
+   dimensions) overflows int32 / int64 or is huge while the datum is tiny (seeded change C10-5: product wrapping negative in
+   int64 reached make()); with and without a null bitmap, every element type class *)
+let array_case r k =
+  let ndim = pick r [| 0; 1; 2; 3; 3; 4; 6; 7 |] in
+  let dims = List.init ndim (fun _ -> (pick r [| 0; 1; 2; 3; 12; 0x10000; 0x40000000; 0x7fffffff; 0x80000000; 0xffffffff |], pick r [| 0; 1; 0x7fffffff; 0xffffffff |])) in
+  let elem = pick r [| 23; 25; 20; 1700; 16; 19; 2950; 829; 1266 |] in
+  let hasnull = rbool r in
+  let hdr = le32 ndim @ le32 (if hasnull then pick r [| 16 + 8 * ndim; 1; 0xffff |] else 0) @ le32 elem
+            @ List.concat_map (fun (d, lb) -> le32 d @ le32 lb) dims in
+  let v = hdr @ rbytes r (pick r [| 0; 4; 16; 64 |]) in
+  let arr_oid = pick r [| 1007; 1009; 1016; 1231; 1000; 1003; 2951; 1040; 1270 |] in
+  emit ~fn:"NoPanic" ~tag:(Printf.sprintf "DecodeType.hostile_array_ndim%d" ndim) ~s:"ok" ~m:"ok" [ "DecodeType"; hexf v; "-"; string_of_int arr_oid ]
+
 let bomb_case r k =
   let depth = pick r [| 18; 24; 30; 40; 60 |] and fan = pick r [| 2; 2; 3 |] in
   let v = jsonb_bomb r depth fan in
@@ -252,6 +281,7 @@ let gen seed n =
   for k = 0 to n / 3 do corpus_case (rng_for seed (7000000 + k)) k done;
   for k = 0 to n / 12 do sweep_case (rng_for seed (8000000 + k)) k done;
   for k = 0 to 11 do bomb_case (rng_for seed (8500000 + k)) k done;
+  for k = 0 to n / 40 do array_case (rng_for seed (8600000 + k)) k done;
   for k = 0 to n / 30 do vl_case (rng_for seed (9000000 + k)) k done;
   for k = 0 to n / 10 do loc_case (rng_for seed (5000000 + k)) k done;
   for k = 0 to n / 45 do loc2_case (rng_for seed (6000000 + k)) k done
